@@ -141,6 +141,23 @@ pub fn lines_strategy() -> impl Strategy<Value = InputCase> {
             "#pot{1 big}", "#pan{2%large}", "#lid{1 small}(n)", "#b{ 1 x }", "~{5 kg}", "~t{ 5 % kg }", "@a{ 1 % kg }( n )", "#pot{ 2 }( big )", "@&a{ 1 kg }",
             // blocks without any item under each mode (a lone backslash at the very end escapes nothing)
             ">> [mode]: steps\nMix the @flour{}.\n\n\\", ">> [mode]: components\n@flour{200%g}\n>> [mode]: steps\nMix the @flour{}.\n\n\\", ">> [mode]: text\nsome text\n\n\\", ">> [mode]: steps\n\\", ">> [mode]: components\n\\\n\n\\", ">> [duplicate]: ref\n@a{}\n\n\\", "= s\n\n\\", "> \\",
+            // front matter with CRLF endings and non-ASCII text right before a key that gets a diagnostic
+            "---\r\ntitle: Soufflé\r\nauthor: 親子丼\r\nnote: é\r\nservings: many\r\n---\r\nMix", "---\r\nx: é\r\ny: é\r\nz: 親子丼\r\nlocale: english\r\ntime: 1h\r\nprep time: 5 min\r\n---\r\n",
+            "---\ntitle: Pizza 🍕\ntags: x\n---", "---\na: é\nauthor: 🍕\ncategory: 親子丼\nab: 1\nabc: 2\n---\n@a{}", "---\ntitle: 親子丼\nyield: many\nname: é\n---",
+            // braces holding only blanks or comments, in every component
+            "~{ }", "~nap{ }", "~nap{-- 日本\n}", "~{[- 日本 -]}", "~{ [- é -] }", "@x{-- é\n}", "#p{[-é-]}( )", "~{\n}",
+            // a path-form definition and references to it by stem or by another path
+            "@./sauces/Pesto{1%cup} and @&pesto{}", "@../basics/sauces/pesto{} then @&./sauces/Pesto{}", ">> [duplicate]: ref\n@./a/Dough{1%kg} @dough{2%kg}",
+            // several different modifiers, each repeated
+            "@-?-?salt{}", "#?-+?-+pan{}", "@&&++x{}", "@??--&&y{1%kg}",
+            // an empty front matter and config-like keys; an indented first `>>`
+            "---\n---\n>> [portion]: large\nMix @flour{1%kg}.", "---\n\n---\n>> [mode]: steps\n@a{}", "  >> title: Pie\nMix @flour{1%kg}.", "[- c -] >> title: Pie\nMix", "\n\n  >> k: v",
+            // a lock on the line after the opening brace, behind a comment
+            "Mix @salt{ -- never scale\n  =1%tsp}", "@salt{ [- c -]\n =1 tsp}", "@a{ -- c\n=2}",
+            // references with a text amount to a numeric definition and the reverse
+            "@salt{1%pinch} then @&salt{to taste}", "@salt{to taste} then @&salt{1%pinch} and @&salt{a bit}",
+            // notes with nothing in them
+            "@onion{1}() @garlic{2%cloves}( ) @salt() #pan() ~t{1%min}()",
             // names that are only a path prefix, with the recipe marker
             "@@..{}", "@@/{}", "@@.{}", "@@dir/..{}", "@@./{}", "@@../{}", "@@./ {1}", "@@a/b/{}", "@@ {}",
             // servings followed directly by letters and numerals that are not ASCII
